@@ -108,6 +108,7 @@ fn main() {
         "C13" => checks::c13::run(&ctx),
         "C15" => checks::c15::run(&ctx),
         "C16" => checks::c16::run(&ctx),
+        "C17" => checks::c17::run(&ctx),
         _ => {
             eprintln!("unknown property {prop}");
             2
